@@ -122,10 +122,22 @@ def _cg(cfg, V, sp, alg):
     x = vec("x0", cfg["x0"], [0, 0, 0])
     x0 = x.copy()
     as_linop = cfg["form"] == "linop"
+    base = None
+    if cfg.get("layout") == "strided":
+        # the caller's array is a non-contiguous view (every second element of a longer buffer / one column of a matrix)
+        base = np.empty((2 * n,) if not as_linop else (n, 2), dtype=x.dtype)
+        base[...] = 7
+        if as_linop:
+            base[:, 0] = x
+            x = base[:, :1]
+        else:
+            base[::2] = x
+            x = base[::2]
+        assert not x.flags["C_CONTIGUOUS"] or n == 1
     if as_linop:
         Aop = sp.linop.MatMul([n, 1], Amat)
         b = b.reshape(n, 1)
-        x = x.reshape(n, 1)
+        x = x.reshape(n, 1) if base is None else x
     else:
         Aop = lambda v: Amat @ v      # noqa
     P = None
@@ -193,6 +205,11 @@ def _cg(cfg, V, sp, alg):
                 prev_err = err
     obl.append(("at_most_max_iter_updates", O.const(k <= max_iter)))
     obl.append(("solution_in_callers_array", O.eq(x, cg.x)))
+    if base is not None:
+        view = base[:, :1] if as_linop else base[::2]
+        other = base[:, 1] if as_linop else base[1::2]
+        obl.append(("solution_written_through_the_view", O.eq(np.ravel(view), np.ravel(cg.x))))
+        obl.append(("rest_of_the_buffer_untouched", O.eq(other, np.full(other.shape, 7))))
     return obl
 
 
@@ -226,6 +243,9 @@ def configs(tier, seed):
                 add(A, "sym", "sym", P, "func", mi, "0", 3, anorm=(P is None))
         add(A, "sym", "sym", None, "linop", 2, "0", 2)
         add(A, "sym", "sym", None, "func", 3, "sym", 3)
+        if A in ("dense2", "rep2") or full:
+            out.append(dict(out[-2], id=out[-2]["id"] + ":strided", layout="strided"))
+            out.append(dict(out[-1], id=out[-1]["id"] + ":strided", layout="strided"))
     for A in ("diag3", "dense3", "rep3", "ill3"):
         add(A, "sym", "zero", None, "func", 3, "0", 2, cost=30)
         add(A, "zero", "sym", None, "func", 2, "0", 2, cost=30)
